@@ -74,20 +74,20 @@ def handle : List String → String
     | some fmt, some empty, some runes, some w, some h, some cs, some core, some kvs =>
       let hints := lookupHints kvs
       let content : List Nat := if empty = 1 then [] else [65]
-      let oned (f : Nat) (margin : Int) : OneDCfg := ⟨[f], margin, fun _ _ => coreCode core⟩
+      let cc : List Nat → Hints → Res (List Bool) := fun _ _ => coreCode core
       match writer with
       | "QR" => showOut (encodeQR ⟨fun _ => cs == "1", fun _ _ _ => coreModules core⟩ content fmt w h hints)
       | "DM" => showOut (encodeDM ⟨fun _ _ _ _ => coreModules core⟩ content fmt w h hints)
       | "CODE_128" =>
-        showOut (encode1D ⟨[fmtCODE_128], 10, code128Core (fun _ => runes) (fun _ _ => coreCode core)⟩ content fmt w h hints)
-      | "CODE_39" => showOut (encode1D (oned fmtCODE_39 10) content fmt w h hints)
-      | "CODE_93" => showOut (encode1D (oned fmtCODE_93 10) content fmt w h hints)
-      | "CODABAR" => showOut (encode1D (oned fmtCODABAR 10) content fmt w h hints)
-      | "ITF" => showOut (encode1D (oned fmtITF 10) content fmt w h hints)
-      | "EAN_13" => showOut (encode1D (oned fmtEAN_13 9) content fmt w h hints)
-      | "EAN_8" => showOut (encode1D (oned fmtEAN_8 9) content fmt w h hints)
-      | "UPC_E" => showOut (encode1D (oned fmtUPC_E 9) content fmt w h hints)
-      | "UPC_A" => showOut (encodeUPCA (oned fmtEAN_13 9) content fmt w h hints)
+        showOut (encode1D (code128Writer (fun _ => runes) cc) content fmt w h hints)
+      | "CODE_39" => showOut (encode1D (code39Writer cc) content fmt w h hints)
+      | "CODE_93" => showOut (encode1D (code93Writer cc) content fmt w h hints)
+      | "CODABAR" => showOut (encode1D (codabarWriter cc) content fmt w h hints)
+      | "ITF" => showOut (encode1D (itfWriter cc) content fmt w h hints)
+      | "EAN_13" => showOut (encode1D (ean13Writer cc) content fmt w h hints)
+      | "EAN_8" => showOut (encode1D (ean8Writer cc) content fmt w h hints)
+      | "UPC_E" => showOut (encode1D (upcEWriter cc) content fmt w h hints)
+      | "UPC_A" => showOut (encodeUPCA (ean13Writer cc) content fmt w h hints)
       | _ => "bad-writer"
     | _, _, _, _, _, _, _, _ => "bad-op"
   | ["atoi", hex] =>
